@@ -16,12 +16,22 @@ CHUNK = 4
 bounds = c01.bounds
 
 
+PAIRS = [('db2', 'db3'), ('db4', 'sym4'), ('bior2.2', 'coif1'), ('haar', 'bior1.3'), ('sym4', 'db2')]
+
+
 def plan(tier):
-    return c01.plan(tier)
+    items = c01.plan(tier)
+    # per-axis wavelets (4-tuple form): forward and inverse must still be inverses of each other
+    sz = [(4, 4), (5, 8), (8, 5), (7, 7), (12, 6)] if tier == 'quick' else [(h, w) for h in range(2, 13) for w in range(2, 13)]
+    for (a, b) in PAIRS:
+        for mode in dwt.MODES:
+            for (h, w) in sz:
+                items.append({'dim': 2, 'wave': [a, b], 'mode': mode, 'h': h, 'w': w, 'jcap': 3})
+    return items
 
 
 def required_regimes(tier):
-    return c01.required_regimes(tier) - {'reflect:allowed_raise'} | {'extra_trailing_sample', 'exact_extent'}
+    return c01.required_regimes(tier) - {'reflect:allowed_raise'} | {'extra_trailing_sample', 'exact_extent', 'pair:4tuple'}
 
 
 def run(item):
@@ -94,6 +104,8 @@ def _run1(res, w, mode, n, cap):
 def _run2(res, item):
     import pywt
     w, mode, h, ww = item['wave'], item['mode'], item['h'], item['w']
+    if isinstance(w, list):
+        return _run2_pair(res, item)
     L = dwt.flen(w)
     X = common.eye_batch((h, ww))
     cap = item['jcap']
@@ -130,3 +142,40 @@ def _run2(res, item):
         _judge(res, cfg, R, (h, ww), err_ref, tags)
         if J == 2 and (h, ww) == (5, 3):
             res.sample({'config': cfg, 'recon_shape': list(R.shape[2:]), 'err_ref': err_ref})
+
+
+def _run2_pair(res, item):
+    """4-tuple (column wavelet, row wavelet): S*A = I with per-axis filters, judged against pywt's own error."""
+    import pywt
+    import torch
+    from pytorch_wavelets import DWTForward, DWTInverse
+    (a, b), mode, h, ww = item['wave'], item['mode'], item['h'], item['w']
+    ca, cb = pywt.Wavelet(a), pywt.Wavelet(b)
+    fa = (ca.dec_lo, ca.dec_hi, cb.dec_lo, cb.dec_hi)
+    fs = (ca.rec_lo, ca.rec_hi, cb.rec_lo, cb.rec_hi)
+    X = common.eye_batch((h, ww))
+    for J in range(1, item['jcap'] + 1):
+        cfg = {'dim': 2, 'wave': [a, b], 'form': '4tuple', 'mode': mode, 'h': h, 'w': ww, 'J': J}
+        tags = ['pair:4tuple'] + (['2d:h!=w'] if h != ww else [])
+        res.state(2, a, b, mode, h, ww, J)
+        try:
+            co = pywt.wavedec2(X[:, 0], (a, b), mode=mode, level=J, axes=(-2, -1))
+            rr = pywt.waverec2(co, (a, b), mode=mode, axes=(-2, -1))
+            err_ref = common.maxabs(rr[:, :h, :ww] - X[:, 0])
+        except Exception:
+            res['ood'] += 1
+            continue
+        try:
+            yl, yh = DWTForward(J=J, wave=fa, mode=mode)(torch.as_tensor(X))
+        except Exception:
+            res['ood'] += 1
+            continue
+        res['impl_calls'] += 2
+        try:
+            R = DWTInverse(wave=fs, mode=mode)((yl, yh)).numpy()
+        except Exception as e:
+            res.violation('perfect_reconstruction', cfg, {'kind': 'raise', 'exc': repr(e)[:200]}, tags)
+            continue
+        res['transitions'] += 2 * J
+        res.regime(*tags)
+        _judge(res, cfg, R, (h, ww), err_ref, tags)
